@@ -13,6 +13,7 @@ import (
 	"github.com/go-i2p/common/lease"
 	"github.com/go-i2p/common/offline_signature"
 	sig "github.com/go-i2p/common/signature"
+	"github.com/go-i2p/crypto/types"
 	"github.com/go-i2p/logger"
 	"github.com/samber/oops"
 )
@@ -993,9 +994,9 @@ func determineSignatureType(dest destination.Destination, offlineSig *offline_si
 }
 
 // createLeaseSet2Signature signs the LeaseSet2 data with the provided key.
+// A nil signingKey yields an all-zero placeholder signature of the correct size: the
+// LeaseSet2 is then unsigned and does not verify until the caller signs it.
 func createLeaseSet2Signature(signingKey interface{}, data []byte, sigType uint16) (sig.Signature, error) {
-	// This is a placeholder - actual signing would use the crypto library
-	// For now, we create a zero signature of the correct size
 	sigSize := offline_signature.SignatureSize(sigType)
 	if sigSize == 0 {
 		return sig.Signature{}, oops.
@@ -1004,10 +1005,29 @@ func createLeaseSet2Signature(signingKey interface{}, data []byte, sigType uint1
 			Errorf("unknown signature type: %d", sigType)
 	}
 
-	// TODO: Implement actual signing using the signingKey
-	// This would call into crypto/signature package to create real signatures
-	// For now, return an empty signature of the correct size
-	signatureData := make([]byte, sigSize)
+	if signingKey == nil {
+		log.WithFields(logger.Fields{
+			"signature_type": sigType,
+			"signature_size": sigSize,
+		}).Warn("No signing key provided - created placeholder signature")
+		return sig.NewSignatureFromBytes(make([]byte, sigSize), int(sigType))
+	}
+
+	signer, err := signerFromKey(signingKey)
+	if err != nil {
+		return sig.Signature{}, err
+	}
+	signatureData, err := signer.Sign(data)
+	if err != nil {
+		return sig.Signature{}, oops.Errorf("failed to sign LeaseSet2: %w", err)
+	}
+	if len(signatureData) != sigSize {
+		return sig.Signature{}, oops.
+			Code("signature_size_mismatch").
+			With("signature_type", sigType).
+			Errorf("signing key produced a %d-byte signature, signature type %d requires %d bytes",
+				len(signatureData), sigType, sigSize)
+	}
 	signature, err := sig.NewSignatureFromBytes(signatureData, int(sigType))
 	if err != nil {
 		return sig.Signature{}, oops.Errorf("failed to create signature: %w", err)
@@ -1017,7 +1037,27 @@ func createLeaseSet2Signature(signingKey interface{}, data []byte, sigType uint1
 		"signature_type": sigType,
 		"signature_size": sigSize,
 		"data_size":      len(data),
-	}).Warn("Created placeholder signature - implement actual signing")
+	}).Debug("Signed LeaseSet2")
 
 	return signature, nil
+}
+
+// signerFromKey obtains a Signer from a go-i2p/crypto signing private key (or a Signer itself).
+func signerFromKey(signingKey interface{}) (types.Signer, error) {
+	switch key := signingKey.(type) {
+	case types.Signer:
+		return key, nil
+	case interface {
+		NewSigner() (types.Signer, error)
+	}:
+		signer, err := key.NewSigner()
+		if err != nil {
+			return nil, oops.Errorf("failed to create signer: %w", err)
+		}
+		return signer, nil
+	default:
+		return nil, oops.
+			Code("unsupported_key_type").
+			Errorf("unsupported signing key type: %T", signingKey)
+	}
 }
